@@ -3,8 +3,10 @@ package checks
 import (
 	"encoding/json"
 	"fmt"
+	"math"
 	"regexp"
 	"sort"
+	"strconv"
 	"strings"
 	"time"
 
@@ -40,6 +42,14 @@ func alterLeaf(n *jmut.Node) (*jmut.Node, string) {
 		return jmut.Bl(!n.B), "bool-flip"
 	case jmut.Num:
 		if strings.ContainsAny(n.Num, ".eE") {
+			// the smallest possible change: the neighbouring double
+			if v, err := strconv.ParseFloat(n.Num, 64); err == nil {
+				lit := strconv.FormatFloat(math.Nextafter(v, math.Inf(1)), 'g', -1, 64)
+				if !strings.ContainsAny(lit, ".eE") {
+					lit += ".0"
+				}
+				return jmut.N(lit), "float-next"
+			}
 			return jmut.N(n.Num + "1"), "number"
 		}
 		var v int64
@@ -264,6 +274,20 @@ func runC08(c *Ctx) {
 		}
 		doc.Set("notes", notes)
 		doc.Set("meta", meta)
+		// the only JSON floats a document can hold: coordinates, with every digit a double carries
+		if sup := doc.Get("supplier"); sup != nil && sup.K == jmut.Obj {
+			coords := func(lat, lon string) *jmut.Node {
+				return jmut.O(jmut.Member{Key: "lat", Val: jmut.N(lat)}, jmut.Member{Key: "lon", Val: jmut.N(lon)})
+			}
+			addrs := sup.Get("addresses")
+			if addrs == nil || addrs.K != jmut.Arr || len(addrs.A) == 0 {
+				addrs = jmut.Ar(jmut.O(jmut.Member{Key: "locality", Val: jmut.S("Madrid")}, jmut.Member{Key: "country", Val: jmut.S("ES")}))
+				sup.Set("addresses", addrs)
+			}
+			addrs.A[0].Set("coords", coords("40.41677541234567", "-3.7037901234567891"))
+			addrs.A = append(addrs.A, jmut.O(jmut.Member{Key: "locality", Val: jmut.S("Elsewhere")}, jmut.Member{Key: "coords", Val: coords("0.1", "1.0e-7")}),
+				jmut.O(jmut.Member{Key: "locality", Val: jmut.S("Far")}, jmut.Member{Key: "coords", Val: coords("-89.99999999999999", "179.99999999999997")}))
+		}
 		env, err := gx.ParseEnvelope(n.Bytes())
 		if err != nil {
 			continue
